@@ -20,6 +20,7 @@ import (
 	"time"
 	"unsafe"
 
+	"github.com/aukilabs/hagall-common/ncsclient"
 	"github.com/prometheus/client_golang/prometheus"
 )
 
@@ -200,20 +201,24 @@ func B2U(b bool) uint64 {
 	}
 	return 0
 }
-func F32Bits(f float32) uint64    { return uint64(math.Float32bits(f)) }
+func F32Bits(f float32) uint64 { return uint64(math.Float32bits(f)) }
 
 // SameF32: IEEE-equal or both NaN.
-func SameF32(a, b float32) bool { return a == b || (a != a && b != b) }
-func SameBytes(a, b []byte) bool  { return bytes.Equal(a, b) }
-func BytesID(b []byte) uint64     { return uint64(len(b)) }
-func StrID(s string) uint64       { return uint64(len(s)) }
-func Symbolic() bool              { return false }
+func SameF32(a, b float32) bool  { return a == b || (a != a && b != b) }
+func SameBytes(a, b []byte) bool { return bytes.Equal(a, b) }
+func BytesID(b []byte) uint64    { return uint64(len(b)) }
+func StrID(s string) uint64      { return uint64(len(s)) }
+func Symbolic() bool             { return false }
 func Tier() int {
 	if os.Getenv("VERIF_TIER") == "thorough" {
 		return 1
 	}
 	return 0
 }
+
+// NCSPosts returns the receipts posted to the (stubbed) credit service. Engine only: natively the harness
+// owns a recording HTTP endpoint instead.
+func NCSPosts() []ncsclient.ReceiptPayload { panic("verifnd.NCSPosts is engine-only") }
 
 // Par runs the functions concurrently. Natively: real goroutines (used under -race).
 func Par(fs ...func()) {
